@@ -562,6 +562,16 @@ func c14Reset(c *Ctx) {
 		if fold.Show(s.F[iParams]) != fold.Show(paramsVal(true, false, 12, 9)) {
 			problems = append(problems, "Reset changes the configured Parameters")
 		}
+		// whatever else the negotiator remembers between calls (a cache, a counter) is state of the
+		// previous handshake too: every other unexported field must be back at its zero value
+		for i := 0; i < est.NumFields(); i++ {
+			if i == iParams || i == iAccepted || i == iParsed || est.Field(i).Exported() {
+				continue
+			}
+			if got, want := fold.Show(s.F[i]), fold.Show(fold.Zero(est.Field(i).Type())); got != want {
+				problems = append(problems, fmt.Sprintf("Reset leaves field %q as it was (%s): a reused negotiator differs from a new one with the same configuration", est.Field(i).Name(), got))
+			}
+		}
 	})
 	for _, p := range paths {
 		if p.Abort != "" || p.Panic {
